@@ -545,7 +545,9 @@ func Harness_C04_BarrierUnderBackPressure() {
 	verif.ExploreSelect(true)
 	total := verif.Param("R", 4)
 	keys := [][]byte{[]byte("k1")}
-	keyer := &verifSlowKeyer{verifKeyer: verifKeyer{keys: keys, keyOf: make([]int, total)}, hold: 1, gate: make(chan struct{})}
+	// every key-by call is held until the harness releases it (one at a time), so that a native
+	// replay sees the same overlaps as the symbolic run
+	keyer := &verifSlowKeyer{verifKeyer: verifKeyer{keys: keys, keyOf: make([]int, total)}, hold: total, gate: make(chan struct{})}
 	down := &verifDownstream{id: "o1"}
 	job := &verifSRJob{cursors: map[uint64]int{}}
 	reader := &verifReader{total: total, permits: make(chan int, 16)}
@@ -588,7 +590,10 @@ func Harness_C04_BarrierUnderBackPressure() {
 	reader.permits <- total
 	reader.permits <- 0
 	verif.Quiesce()
-	for i := 0; i < 4; i++ {
+	for i := 0; i < 4*total; i++ {
+		if keyer.waiting > 0 {
+			keyer.gate <- struct{}{}
+		}
 		verif.FireTimers()
 		verif.Quiesce()
 	}
